@@ -758,6 +758,119 @@ def big_case(rng, tag):
     return c
 
 
+# ------------------------------------------------------------------ LARGE outputs, checker only (lesson 13)
+# Edge lists with more than 2^16 motif instances: beyond anything the unary-nat model can run (and beyond where a
+# fixed-width id column wraps, C02-r3-2).  The real fast / network generator runs under the REAL seeded random module;
+# the logged callback results and the three columns go to the verified checker over Z (Gen.c02_check_ids), no model.
+HUGE_LIMIT = 400000
+
+
+def huge_spec(rng, tag=None):
+    """parameters of one large run (the case stays small: the jds is rebuilt from them).  Layouts: 'deg1' = every
+    vertex has one stub (all motifs vertex disjoint: also good for the network variant); 'hubs' = 1000-2000 vertices
+    with degrees around 70-140 (pairs repeat, self loops occur: edge-list variant only)"""
+    layout = rng.choice(["deg1", "hubs"]) if tag in (None, FAST) else "deg1"
+    n2 = rng.randint(66000, 70000)                 # 2-cliques: more than 2^16 motif instances of one edge each
+    n3 = rng.choice([0, 0, rng.randint(1, 400)])   # sometimes a few triangles (blocks of three rows) at the end
+    first = rng.random() < 0.5 and n3 > 0          # ... or in front (topology order)
+    return {"layout": layout, "n2": n2, "n3": n3, "tri_first": first, "N": rng.randint(1000, 2000),
+            "seed": rng.randrange(1 << 30)}
+
+
+def huge_jds(spec):
+    """the jds of a large run: list of tuples, columns in topology order"""
+    r = _random.Random(spec["seed"] ^ 0x5EED)
+    s2, s3 = 2 * spec["n2"], 3 * spec["n3"]
+    if spec["layout"] == "deg1":
+        rows = [(1, 0)] * s2 + [(0, 1)] * s3
+        r.shuffle(rows)
+    else:
+        N = spec["N"]
+        cnt = [[0, 0] for _ in range(N)]
+        for _ in range(s2):
+            cnt[r.randrange(N)][0] += 1
+        for _ in range(s3):
+            cnt[r.randrange(N)][1] += 1
+        rows = [tuple(c) for c in cnt]
+    if spec["n3"] == 0:
+        return [(a,) for a, _ in rows]
+    if spec["tri_first"]:
+        return [(b, a) for a, b in rows]
+    return rows
+
+
+def huge_case(rng, tag=None):
+    tag = tag if tag is not None else rng.choice([FAST, FAST, NETWORK])
+    spec = huge_spec(rng, tag)
+    if spec["n3"] == 0:
+        sizes, names = [2], [[rng.choice([11, 300])]]
+    elif spec["tri_first"]:
+        sizes, names = [3, 2], [[31], [21]]
+    else:
+        sizes, names = [2, 3], [[21], [31]]
+    return {"tag": tag, "via": rng.choice(VIAS), "jds": [], "pis": [], "sizes": sizes, "codes": [CLIQUE] * len(sizes),
+            "names": names, "mis": [], "huge": spec, "bform": rng.choice(BFORMS[:3])}
+
+
+def run_huge(case):
+    """observation of one large run: logged callback results (index, edges), the three columns (for the network
+    variant read back from the graph in callback order), all as plain ints; None entries / -1 for anything else"""
+    from gcmpy.names.network_names import NetworkNames
+    spec = case["huge"]
+    jds = huge_jds(spec)
+    log = []
+    bform = case.get("bform", "asis")
+
+    def wrap(j, code):
+        fn = py_builder(code)
+
+        def cb(vs):
+            r = reform_build(fn(vs), bform)
+            log.append((j, r))
+            return r
+        return cb
+    builders = [wrap(j, c) for j, c in enumerate(case["codes"])]
+    names = [name_str(n[0]) for n in case["names"]]
+    state = _random.getstate()
+    try:
+        _random.seed(spec["seed"])
+        alg = construct(case, builders, names)
+        out = alg.random_clustered_graph(jds)
+    finally:
+        _random.setstate(state)
+    results = []
+    for j, r in log[:HUGE_LIMIT]:
+        sh = shape_of(r)
+        results.append([j, [[sh[1], sh[2]]] if sh[0] == 1 else sh[1] if sh[0] == 0 else [[-1, -1]]])
+    obs = {"huge": True, "n_calls": len(log), "results": results}
+    if case["tag"] == NETWORK:
+        G = out.G
+        ce, cn, ci = [], [], []
+        seen = set()
+        dup = False
+        for j, es in results:
+            for a, b in es:
+                key = (min(a, b), max(a, b))
+                dup = dup or key in seen
+                seen.add(key)
+                d = G.edges[a, b] if G.has_edge(a, b) else {}
+                ce.append([a, b])
+                cn.append(name_code(d.get(NetworkNames.TOPOLOGY)))
+                ci.append(enc_raw(d.get(NetworkNames.MOTIF_IDS, -1)))
+        obs["repeated_pairs"] = dup or G.number_of_edges() != len(seen)
+        obs["edges"], obs["names"], obs["ids"] = ce, cn, ci
+    else:
+        obs["edges"] = [enc_raw(e) for e in out.edge_list[:HUGE_LIMIT]]
+        obs["names"] = [name_code(x) for x in out.topologies[:HUGE_LIMIT]]
+        obs["ids"] = [enc_raw(i) for i in out.motif_id[:HUGE_LIMIT]]
+    return obs
+
+
+def huge_check_tree(case, obs):
+    ids = [i if isinstance(i, int) and not isinstance(i, bool) else -1 for i in obs["ids"]]
+    return [[n[0] for n in case["names"]], obs["results"], obs["edges"], obs["names"], ids]
+
+
 # ------------------------------------------------------------------ generators
 def all_perms(n):
     return [list(p) for p in itertools.permutations(range(n))]
